@@ -242,7 +242,7 @@ pub fn client_pki() -> (rustls_pki_types::CertificateDer<'static>, rustls_pki_ty
     (one("ca.crt"), one("client.crt"), key)
 }
 
-fn tls_acceptor() -> tokio_rustls::TlsAcceptor {
+pub fn tls_acceptor() -> tokio_rustls::TlsAcceptor {
     use tokio_rustls::rustls::{server::WebPkiClientVerifier, RootCertStore, ServerConfig};
     let certs: Vec<_> = rustls_pemfile::certs(&mut &load_pem("server.crt")[..]).collect::<Result<_, _>>().expect("server cert");
     let key = rustls_pemfile::private_key(&mut &load_pem("server.key")[..]).expect("key").expect("server key");
